@@ -541,6 +541,31 @@ def unusual_streams(report):
                 if outcome != ("errors" if expect_error else "rows"):
                     report.violation("c10", {"stream": label, "format": fmt}, "rows or data errors", outcome,
                                      "%s data from %s: %s" % (fmt, label, outcome))
+            # the same objects as targets of a validating writer: an accepted row, a refused one, another accepted one
+            from cutplace import validio
+            report.replayed += 1
+            stream = factory()
+            try:
+                with validio.Writer(cid, stream) as writer:
+                    writer.write_row(["1"])
+                    try:
+                        writer.write_row(["x"])
+                        outcome = "the refused row was written"
+                    except errors.DataError as error:
+                        str(error)
+                        outcome = "ok"
+                    writer.write_row(["2"])
+                stream.seek(0)
+                written = stream.read()
+                if outcome == "ok" and written != good:
+                    outcome = "the stream holds %r instead of %r" % (written, good)
+            except Exception as error:  # noqa
+                outcome = "%s: %s" % (type(error).__name__, str(error)[:120])
+            finally:
+                stream.close()
+            if outcome != "ok":
+                report.violation("c10", {"stream": label, "format": fmt, "writer": True}, "rows written, data error for the bad row", outcome,
+                                 "%s data written to %s: %s" % (fmt, label, outcome))
 
 
 def native_excel_cells(report):
